@@ -27,7 +27,8 @@ KINDS = ["mesh", "mesh_fcol", "mesh_vcol", "mesh_tex", "mesh_pbr", "mesh_attr", 
          "extrusion", "path2d", "path3d", "points", "scene", "voxel"]
 ROUTES = ["copy", "copy.copy", "deepcopy"]
 EDITS = ["vertex_inplace", "vertex_assign", "face_inplace", "transform", "color_inplace", "metadata_nested", "metadata_key",
-         "attribute_inplace", "param", "graph_update", "graph_remove_geom", "entity_inplace", "voxel_transform", "density"]
+         "attribute_inplace", "param", "graph_update", "graph_remove_geom", "entity_inplace", "voxel_transform", "density",
+         "generated_color_inplace"]
 
 
 def cases(ctx):
@@ -45,12 +46,19 @@ def cases(ctx):
             for route in ("copy", "deepcopy"):
                 yield {"kind": kind, "route": route, "computed": False, "pre_edit": False, "edit": "color_inplace",
                        "side": "copy", "seed": 1, "paint": paint}
+    # colours generated from the stored ones (or the defaults) are read before the copy, then one side paints into
+    # the generated array in place: the other side's colours, colour kind and transparency must not change
+    for kind in ("mesh", "mesh_fcol", "mesh_vcol", "box"):
+        for route in ("copy", "deepcopy", "copy_cache"):
+            for side in ("copy", "original"):
+                yield {"kind": kind, "route": route, "computed": False, "pre_edit": False, "colors_read": True,
+                       "edit": "generated_color_inplace", "side": side, "seed": 1}
     while True:
         kind = rng.choice(KINDS)
         ctx.count("kind:" + kind)
         yield {"kind": kind, "route": rng.choice(ROUTES + ["copy_cache"]), "computed": rng.random() < 0.6,
                "pre_edit": rng.random() < 0.3, "edit": rng.choice(EDITS), "side": rng.choice(["copy", "original"]),
-               "seed": rng.randrange(10 ** 6),
+               "seed": rng.randrange(10 ** 6), "colors_read": rng.random() < 0.4,
                "paint": rng.choice([None, None, "vertex_after_face_read", "face_after_vertex_read", "vertex"])}
 
 
@@ -179,6 +187,11 @@ def observe(o, kind):
             r["colors"] = _arr(o.visual.face_colors)
         elif o.visual.kind == "vertex":
             r["colors"] = _arr(o.visual.vertex_colors)
+        if o.visual.kind in (None, "face", "vertex") and hasattr(o.visual, "main_color"):
+            # everything a colour visual reports, generated arrays included
+            r["face_colors"], r["vertex_colors"] = _arr(o.visual.face_colors), _arr(o.visual.vertex_colors)
+            r["main_color"], r["transparency"] = _arr(o.visual.main_color), bool(o.visual.transparency)
+            r["visual_kind_after"] = o.visual.kind
         elif o.visual.kind == "texture":
             r["uv"] = _arr(o.visual.uv)
             img = getattr(o.visual.material, "image", None)
@@ -261,8 +274,9 @@ def walk(root, limit=4000):
             continue          # immutable geometry values
         d = getattr(x, "__dict__", None)
         if d is not None:
-            # cached derived values are results, not state of the object: not walked
-            stack.extend(v for k, v in d.items() if k not in ("_cache",))
+            # cached derived values are results, not state of the object: not walked - except the cache of a visual,
+            # whose generated colour arrays are handed out writeable and adopted as data when edited in place
+            stack.extend(v for k, v in d.items() if k not in ("_cache",) or mod.startswith("trimesh.visual"))
         for sl in getattr(type(x), "__slots__", ()):
             if hasattr(x, sl):
                 stack.append(getattr(x, sl))
@@ -305,6 +319,14 @@ def apply_edit(o, kind, edit, seed):
         if kind in ("mesh_tex", "mesh_pbr"):
             o.visual.uv[0] += 0.25
             return True
+    if edit == "generated_color_inplace" and kind in ("mesh", "mesh_fcol", "mesh_vcol", "mesh_attr", "mesh_over", "box",
+                                                      "sphere", "cylinder", "capsule", "extrusion"):
+        # paint into the colour array the visual generates (the kind it does not store)
+        if o.visual.kind == "face":
+            o.visual.vertex_colors[0] = [7, 6, 5, 100]
+        else:
+            o.visual.face_colors[0] = [7, 6, 5, 100]
+        return True
     if edit == "metadata_nested" and isinstance(getattr(o, "metadata", None), dict) and "info" in o.metadata:
         o.metadata["info"][next(iter(o.metadata["info"]))].append("edited")
         return True
@@ -367,6 +389,9 @@ def run_case(c):
             a.visual.face_colors[0] = [9, 8, 7, 255]
         elif c["paint"] == "vertex":
             a.visual.vertex_colors[1] = [1, 2, 3, 255]
+    if c.get("colors_read") and hasattr(a, "visual") and hasattr(a.visual, "face_colors") and \
+            getattr(a.visual, "kind", None) in (None, "face", "vertex"):
+        _ = a.visual.face_colors, a.visual.vertex_colors
     # the original is NOT observed before the copy: reading its values can change its internal state
     # (lazily adopted colours, caches) and the copy must be faithful in whatever state the original is
     b = do_copy(a, c["route"])
